@@ -470,3 +470,103 @@ def normalise(fn: FuncNode, *, body: T.Optional[T.List[ast.stmt]] = None, calls:
     new = copy.copy(fn)
     new.body = new_body or [ast.copy_location(ast.Pass(), fn)]
     return new
+
+
+# ---------------------------------------------------------------------------------------------------------
+# inlining of private helper methods called for effect (`obj._helper(a, b)` as a statement)
+# ---------------------------------------------------------------------------------------------------------
+
+def _strip_tail_returns(stmts: T.List[ast.stmt]) -> T.Optional[T.List[ast.stmt]]:
+    """Remove `return` / `return None` in tail position of a tail-duplicated body; None if a value is returned."""
+    if not stmts:
+        return stmts
+    out = list(stmts)
+    last = out[-1]
+    if isinstance(last, ast.Return):
+        if last.value is not None and not (isinstance(last.value, ast.Constant) and last.value.value is None):
+            return None
+        out = out[:-1]
+    elif isinstance(last, ast.If):
+        b, o = _strip_tail_returns(last.body), _strip_tail_returns(last.orelse)
+        if b is None or o is None:
+            return None
+        out[-1] = ast.copy_location(ast.If(test=last.test, body=b or [ast.copy_location(ast.Pass(), last)], orelse=o), last)
+    return out
+
+
+def inline_helpers(fn: FuncNode, helpers: T.Dict[str, FuncNode], *, calls: T.Iterable[str] = ()) -> FuncNode:
+    """A copy of `fn` in which every *statement* `recv._m(args)` that calls one of `helpers` (private methods of the
+    same class, called for their effect) is replaced by the helper's body: `self` -> recv, parameters -> arguments
+    (bound by position or keyword), the helper's own locals renamed.  A helper that cannot be inlined faithfully
+    (returns a value, returns from inside a loop, rebinds a parameter, *args) is left as a call."""
+    from ..tables import _Subst
+
+    def expand(st: ast.Expr) -> T.Optional[T.List[ast.stmt]]:
+        c = st.value
+        assert isinstance(c, ast.Call) and isinstance(c.func, ast.Attribute)
+        callee = helpers[c.func.attr]
+        a = callee.args
+        if a.vararg or a.kwarg or a.kwonlyargs or any(isinstance(x, ast.Starred) for x in c.args) or any(k.arg is None for k in c.keywords):
+            return None
+        params = [p.arg for p in a.posonlyargs + a.args]
+        if not params or params[0] != 'self' or attr_chain(c.func.value) is None:
+            return None
+        actual: T.Dict[str, ast.AST] = {'self': c.func.value}
+        if len(c.args) > len(params) - 1:
+            return None
+        for p, x in zip(params[1:], c.args):
+            actual[p] = x
+        for k in c.keywords:
+            if k.arg not in params or k.arg in actual:
+                return None
+            actual[k.arg] = k.value                     # type: ignore[index]
+        defaults = dict(zip(params[len(params) - len(a.defaults):], a.defaults))
+        for p in params:
+            if p not in actual:
+                if p not in defaults:
+                    return None
+                actual[p] = defaults[p]
+        try:
+            cn = normalise(callee, calls=calls)
+        except Undecided:
+            return None
+        body = _strip_tail_returns(cn.body)
+        if body is None:
+            return None
+        wrapper = ast.Module(body=body, type_ignores=[])
+        stores = {n.id for n in ast.walk(wrapper) if isinstance(n, ast.Name) and isinstance(n.ctx, (ast.Store, ast.Del))}
+        if any(isinstance(n, (ast.Return, ast.Global, ast.Nonlocal, ast.FunctionDef, ast.Lambda)) for n in ast.walk(wrapper)) or stores & set(params):
+            return None
+        mapping: T.Dict[str, ast.AST] = dict(actual)
+        mapping.update({n: ast.Name(id=f'{n}__{callee.name.strip("_")}', ctx=ast.Load()) for n in stores})
+        new = []
+        for s in body:
+            s2 = _Subst(mapping).visit(copy.deepcopy(s))
+            for n in ast.walk(s2):
+                if isinstance(n, ast.Name) and isinstance(n.ctx, (ast.Store, ast.Del)) and n.id in stores:
+                    n.id = f'{n.id}__{callee.name.strip("_")}'
+            new.append(ast.copy_location(s2, st))
+        return [s for s in new if not (isinstance(s, ast.Expr) and isinstance(s.value, ast.Constant))] or [ast.copy_location(ast.Pass(), st)]
+
+    def conv(stmts: T.List[ast.stmt]) -> T.List[ast.stmt]:
+        out: T.List[ast.stmt] = []
+        for s in stmts:
+            if isinstance(s, ast.Expr) and isinstance(s.value, ast.Call) and isinstance(s.value.func, ast.Attribute) \
+                    and s.value.func.attr in helpers and helpers[s.value.func.attr] is not fn:
+                ex = expand(s)
+                if ex is not None:
+                    out.extend(ex)
+                    continue
+            s2 = copy.copy(s)
+            for f in _BLOCK_FIELDS:
+                sub = getattr(s, f, None)
+                if isinstance(sub, list) and sub and isinstance(sub[0], ast.stmt):
+                    setattr(s2, f, conv(sub))
+            if getattr(s, 'handlers', None):
+                s2.handlers = [ast.copy_location(ast.ExceptHandler(type=h.type, name=h.name, body=conv(h.body)), h) for h in s.handlers]   # type: ignore[attr-defined]
+            out.append(s2)
+        return out
+
+    new = copy.copy(fn)
+    new.body = conv(list(fn.body))
+    return new
